@@ -22,7 +22,7 @@ func corrC05(r *Run) {
 		"non-trivial = schedules in which at least one response was dispatched before the request's Write returned; distinct by event list"
 	ts := pduTypes()
 	c05Witness(r)
-	n := r.N(90, 1200)
+	n := r.N(330, 1500)
 	maxCallers := r.N(8, 24)
 	for i := 0; i < n; i++ {
 		i := i
@@ -84,6 +84,7 @@ func c05Scenario(r *Run, ts []pduType, idx, maxCallers int) {
 	}
 	var wantApp []Delivery
 	stalled := ""
+	oddDone := false
 	started := 0
 	earlyAny := false
 	for steps := 0; steps < 40*n+40 && w.Stuck == ""; steps++ {
@@ -117,27 +118,37 @@ func c05Scenario(r *Run, ts []pduType, idx, maxCallers int) {
 				x.early, earlyAny = true, true
 			}
 			x.wantID = idOfPDU(x.c.P) | 0x80000000
+			var answer interface{}
 			switch k2 := rng.Intn(12); {
 			case k2 < 3: // the peer may refuse the request: still the response Submit has to return, without error
-				w.PeerPDU(respStatus(x.c.P, x.c.Seq, uint32(1+rng.Intn(0x400))))
+				answer = respStatus(x.c.P, x.c.Seq, uint32(1+rng.Intn(0x400)))
 			case k2 < 5 || (idx == 0 && len(calls) == 1):
 				// ... or answer with generic_nack carrying the request's sequence number (SMPP 4.1.1: "command_id invalid",
 				// "PDU too long" ...): that is the PDU whose sequence number equals the request's
 				x.wantID = idGenericNack
-				w.PeerPDU(&pdu.GenericNACK{Header: pdu.Header{CommandStatus: pdu.CommandStatus(1 + rng.Intn(0xFF)), Sequence: x.c.Seq}})
+				answer = &pdu.GenericNACK{Header: pdu.Header{CommandStatus: pdu.CommandStatus(1 + rng.Intn(0xFF)), Sequence: x.c.Seq}}
 			case k2 < 6:
 				// ... or with a response PDU of another type
 				other := &pdu.SubmitSMResp{Header: pdu.Header{Sequence: x.c.Seq}, MessageID: "x"}
 				if x.wantID == idOfPDU(other) {
-					w.PeerPDU(&pdu.DeliverSMResp{Header: pdu.Header{Sequence: x.c.Seq}})
-					x.wantID = idOfPDU(&pdu.DeliverSMResp{})
+					answer = &pdu.DeliverSMResp{Header: pdu.Header{Sequence: x.c.Seq}}
 				} else {
-					w.PeerPDU(other)
-					x.wantID = idOfPDU(other)
+					answer = other
 				}
+				x.wantID = idOfPDU(answer)
 			default:
-				w.PeerPDU(respFor(x.c.P, x.c.Seq))
+				answer = respFor(x.c.P, x.c.Seq)
 			}
+			f := frameOf(answer)
+			// the wire form may hold more than the decoder consumes: a refusal that still carries its body
+			// (submit_sm_resp ESME_RTHROTTLED + empty message_id), octets behind the body; the responses behind it must still arrive
+			switch k3 := rng.Intn(6); {
+			case k3 == 0 || (idx%4 == 1 && len(calls) >= 2 && !oddDone):
+				f, oddDone = oddFrame(rng, f, 1), true
+			case k3 == 1:
+				f = oddFrame(rng, f, 2)
+			}
+			w.Peer([][]byte{f}, [][]int{genCuts(rng, len(f))})
 		case k == 9:
 			f := genUnsolicited(rng, ts, fresh())
 			_, id, s := classifyFrame(f)
